@@ -190,7 +190,7 @@ func (c *flowCtx) assign(lhs ast.Expr, val map[int]bool) {
 }
 
 // endsWithReturn: the block's last statement leaves the action
-func endsWithReturn(b *ast.BlockStmt) bool {
+func gramEndsWithReturn(b *ast.BlockStmt) bool {
 	if b == nil || len(b.List) == 0 {
 		return false
 	}
@@ -270,7 +270,7 @@ func (c *flowCtx) stmt(s ast.Stmt) {
 		}
 		c.depth--
 		c.ctrl = c.ctrl[:len(c.ctrl)-1]
-		if endsWithReturn(t.Body) {
+		if gramEndsWithReturn(t.Body) {
 			// `if cond { …; return 1 }`: whatever follows runs only when the condition is false
 			c.after = append(c.after, cond)
 		}
